@@ -42,7 +42,7 @@ def batches(data, kinds):
             mp = e.pop("map", None)
             b.add(e)
             if e["ev"] == "Apply" and mp is not None and "StepMap" in kinds:
-                b.add({"ev": "StepMap", "di": e["di"], "step": e["step"], "res": e["res"], "out": e["out"], "map": mp, "tag": "testsuite"})
+                b.add({"ev": "StepMap", "di": e["di"], "step": e["step"], "res": e["res"], "out": e["out"], "map": mp, "mapped": [], "tag": "testsuite"})
         if b.events:
             out.append(b)
     return out
